@@ -148,3 +148,17 @@ Definition no_second_proposal_with_other_data (l : list cmsg) : Prop :=
   forall i j m1 m2, nth_error l i = Some m1 -> nth_error l j = Some m2 ->
     c_type m1 = qbftProposalMsgType -> c_type m2 = qbftProposalMsgType ->
     slot_round m1 = slot_round m2 -> i = j.
+
+(* ---- error classes ---------------------------------------------------------------------------- *)
+
+(* The errors that only ignore the message: they depend on the receiver's clock, registry or on
+   what it happened to see before, so an honest relayer may trigger them.  Everything else - also
+   any error added later - is expected to penalise the sender (reject). *)
+Definition expected_ignore (e : verr) : bool :=
+  match e with
+  | ErrEmptyData | ErrWrongDomain | ErrNoShareMetadata | ErrUnknownValidator | ErrValidatorLiquidated
+  | ErrValidatorNotAttesting | ErrSlotAlreadyAdvanced | ErrRoundAlreadyAdvanced | ErrRoundTooHigh
+  | ErrEarlyMessage | ErrLateMessage | ErrTooManySameTypeMessagesPerRound | ErrEstimatedRoundTooFar
+  | ErrNoDutyIgnored => true
+  | _ => false
+  end.
